@@ -503,7 +503,9 @@ func (g *gen) stmt(lvl int) string {
 		case v.t == tStr && g.t.Bool(1, 2):
 			return ind(lvl) + v.name + " += " + g.expr(tStr, 2) + "\n"
 		case v.t == tArr && g.t.Bool(1, 2):
-			return ind(lvl) + v.name + "[" + fmt.Sprint(g.t.Draw(3)) + "] = " + g.expr(tInt, 2) + "\n"
+			// guarded: an ill-typed assignment may have put a map here, and an index
+			// assignment would give it a second key (map printing order is unspecified)
+			return ind(lvl) + "if isArray(" + v.name + ") { " + v.name + "[" + fmt.Sprint(g.t.Draw(3)) + "] = " + g.expr(tInt, 2) + " }\n"
 		case v.t == tMap && g.t.Bool(1, 2):
 			return ind(lvl) + v.name + ".k = " + g.expr(tAny, 2) + "\n"
 		}
